@@ -147,6 +147,15 @@ func (r *rdbdriver) findMapInSortedData(domain, mtype []byte, context Context) (
 		if length == 0 {
 			break
 		}
+		if nameLen := len(k) - prefixLen - len(suffix); length >= nameLen {
+			// the closest key belongs to the very name being looked up (its wildcard
+			// map, when the exact one was asked for). A wildcard map does not apply to
+			// its owner name: carry on with the parent
+			if nameLen <= 1 {
+				break
+			}
+			length = getLengthWithoutLastLabel(reversedZone, nameLen) - 1
+		}
 
 		// k already has necessary data - we just need to cut it at proper point
 		k[prefixLen+length] = 0
